@@ -2,6 +2,7 @@
 from __future__ import annotations
 
 import ast
+import os
 import time
 import traceback
 from typing import Any, Callable, Optional
@@ -87,6 +88,8 @@ class Contract:
         self.entry: Optional[Callable] = None  # custom driver instead of a single call
         self.expect_loops: Optional[int] = None
         self.notes: list[str] = []
+        self.crosscheck_spec: Optional[dict] = None
+        self.pools: dict[str, list] = {}  # cross-check sample pools per input name
 
     # ---- symbolic inputs
     def int(self, name):
@@ -193,6 +196,11 @@ class Contract:
     def override_global(self, module, name, val: Val):
         self.overrides[(module, name)] = val
 
+    def crosscheck(self, **spec):
+        """compare the engine's path summaries with CPython on sampled concrete inputs
+        (pyvc/crosscheck.py); spec: func=, pools={input: [values]}, n=, self_code="""
+        self.crosscheck_spec = spec
+
     def replay(self, schema: str, **extra):
         self.replay_schema = schema
         self.replay_extra = extra
@@ -240,7 +248,9 @@ def term_py(v):
     if z3.is_false(v):
         return False
     if z3.is_string_value(v):
-        return v.as_string()
+        from .solve import _unescape
+
+        return _unescape(v.as_string())
     if v.sort() == U and z3.is_app(v):
         d = v.decl().name()
         if d == "none":
@@ -324,6 +334,27 @@ def verify_contract(cdef: ContractDef, tier="quick") -> dict:
         else:
             outcomes = eng.run(func, c.st, c.args, c.kwargs, self_val=c.self_val)
         axioms = [a for a, _ in c.axioms]
+        if not os.environ.get("VERIF_NO_XCHECK") and not (c.crosscheck_spec or {}).get("off"):
+            # CPython cross-check of the path summaries (DESIGN 2.7).  Explicit (c.crosscheck(...)):
+            # a set-up failure or an empty comparison is a checker error.  Automatic (every contract
+            # whose call takes scalar inputs and that replaces no callee by a summary): set-up
+            # failures are recorded and skipped.  A disagreement is a checker error in both modes.
+            explicit = c.crosscheck_spec is not None
+            if explicit or (not c.summaries and c.entry is None and not c.axioms):
+                from .crosscheck import run_crosscheck
+
+                try:
+                    xc = run_crosscheck(c, eng, outcomes, tier, int(os.environ.get("VERIF_SEED", "0")))
+                except Exception as e:  # noqa: BLE001
+                    xc = {"error": f"cross-check crashed: {type(e).__name__}: {e}"}
+                xc["mode"] = "explicit" if explicit else "auto"
+                rep["crosscheck"] = xc
+                if xc.get("n_mismatches"):
+                    rep["error"] = f"engine disagrees with CPython (cross-check): {xc['mismatches'][:2]}"
+                elif explicit and xc.get("error"):
+                    rep["error"] = xc["error"]
+                elif explicit and not xc.get("compared"):
+                    rep["error"] = f"cross-check compared nothing: {xc}"
         obls: list[tuple[str, str, list, Any, Any]] = []  # (kind, label, pc, goal, result)
         n_normal = 0
         for k, (s, o) in enumerate(outcomes):
@@ -386,12 +417,38 @@ def verify_contract(cdef: ContractDef, tier="quick") -> dict:
         rep["normal_paths"] = n_normal
         # discharge, grouping by (kind,label)
         groups: dict[tuple[str, str], dict] = {}
+        from .solve import check_sat as _cs, recheck_unsat
+
         for kind, label, pc, goal, res in obls:
             status, model, dt, backend, smt2 = discharge(pc, goal, axioms, 10000 if tier == "quick" else 30000, c.inputs)
-            g = groups.setdefault((kind, label), {"kind": kind, "label": label, "status": "discharged", "paths": 0, "time_s": 0.0, "backends": set(), "model": None, "smt2": None})
+            g = groups.setdefault((kind, label), {"kind": kind, "label": label, "status": "discharged", "paths": 0, "time_s": 0.0, "backends": set(), "model": None, "smt2": None, "canary": None})
             g["paths"] += 1
             g["time_s"] += dt
             g["backends"].add(backend)
+            # canary (DESIGN 2.7): a discharged obligation must not hold vacuously -- on at least
+            # one of its paths `pc and goal` is satisfiable (the negated claim is refuted there)
+            if status == "discharged" and g["canary"] is not True and not z3.is_false(z3.simplify(goal) if not isinstance(goal, bool) else z3.BoolVal(goal)) and not (kind == "raises" and res is None):
+                gl = goal if not isinstance(goal, bool) else z3.BoolVal(goal)
+                st_, _m, _b, dtc, _q = _cs([*axioms, *pc, gl], z3_ms=1000, cvc5_ms=3000)
+                if st_ == "unknown" and axioms:
+                    st_, _m, _b, dtc2, _q = _cs([*pc, gl], z3_ms=1000, cvc5_ms=3000)
+                    dtc += dtc2
+                g["time_s"] += dtc
+                if st_ == "sat":
+                    g["canary"] = True
+                elif st_ == "unsat" and g["canary"] is None:
+                    g["canary"] = False
+                elif st_ == "unknown":
+                    g["canary"] = "unknown"
+            # thorough tier: every unsat answer of z3 is re-checked by cvc5 (disagreement = checker error)
+            if status == "discharged" and tier == "thorough" and backend == "z3":
+                r2, dt2 = recheck_unsat([*axioms, *pc, z3.Not(goal if not isinstance(goal, bool) else z3.BoolVal(goal))], 20000)
+                g["time_s"] += dt2
+                g.setdefault("recheck", {"unsat": 0, "unknown": 0, "sat": 0})[r2] += 1
+                if r2 == "sat":
+                    rep["error"] = (rep.get("error") or "") + f" solver disagreement on {label}: z3 unsat, cvc5 sat;"
+                else:
+                    g["backends"].add("cvc5-recheck" if r2 == "unsat" else "cvc5-recheck-unknown")
             if status == "refuted" and g["status"] != "refuted":
                 g["status"] = "refuted"
                 g["model"] = dict(model)
@@ -402,6 +459,8 @@ def verify_contract(cdef: ContractDef, tier="quick") -> dict:
                 g["status"] = "undecided"
                 g["smt2"] = smt2
         for g in groups.values():
+            if g["status"] == "discharged" and g["canary"] is False:
+                rep["error"] = (rep.get("error") or "") + f" canary failed: obligation '{g['label']}' holds vacuously (no feasible path satisfies it);"
             g["backends"] = sorted(g["backends"])
             g["time_s"] = round(g["time_s"], 4)
             g["id"] = f"{cdef.ident}/{g['label']}"
@@ -409,7 +468,7 @@ def verify_contract(cdef: ContractDef, tier="quick") -> dict:
             g["replay_extra"] = c.replay_extra
             rep["obligations"].append(g)
         if not cov_ok:
-            rep["error"] = f"vacuity guard failed: {cov}"
+            rep["error"] = (rep.get("error") or "") + f" vacuity guard failed: {cov}"
         if not rep["obligations"]:
             rep["error"] = rep["error"] or "zero obligations generated"
         rep["assumptions"] = list(c.assumptions) + sorted(getattr(eng, "model_notes", ()))
